@@ -330,3 +330,39 @@ def disabled_means_silent(ctx):
                   'sendto only when the responder is enabled',
                   'sendto is not dominated by the is_enabled test: a responder that disabled itself (identity alone '
                   'exceeds the 508 byte budget) still sends an over-long announcement', run)
+
+
+@rule('C19.R2b', min_instances=1)
+def budget_measures_the_complete_message(ctx):
+    """the length budget is measured on the message built with the full description (JSON escaping of the description
+    counts): no store of a placeholder into self.description precedes the measurement"""
+    m = ctx.m
+    init = m.method(UDP, '__init__', inherited=False)
+    ctx.analysed(init)
+    cfg = CFG(init.node, m, init.module)
+    budget = [c for c in calls_in(init.node) if dotted(c.func) == 'len' and c.args and isinstance(c.args[0], ast.Call)
+              and isinstance(c.args[0].func, ast.Attribute) and dotted(c.args[0].func.value) == 'self']
+    if not budget:
+        raise AnchorMissing('length budget not found', violation=f'{init.qualname}:budget measures the complete message')
+    params = {a.arg for a in init.node.args.args}
+    for b in budget:
+        bids = set(cfg.node_of(b))
+        for n in body_walk(init.node):
+            if not isinstance(n, ast.Assign):
+                continue
+            pairs = []
+            for t in n.targets:
+                if isinstance(t, ast.Attribute) and t.attr == 'description' and dotted(t.value) == 'self':
+                    pairs.append(n.value)
+                if isinstance(t, ast.Tuple) and isinstance(n.value, ast.Tuple) and len(t.elts) == len(n.value.elts):
+                    for te, ve in zip(t.elts, n.value.elts):
+                        if isinstance(te, ast.Attribute) and te.attr == 'description' and dotted(te.value) == 'self':
+                            pairs.append(ve)
+            for v in pairs:
+                before = any(cfg.reach(cfg.node_of(n)) & bids for _ in [0])
+                if not before:
+                    continue
+                full = bool({x.id for x in ast.walk(v) if isinstance(x, ast.Name)} & params)
+                ctx.check(full, f'{init.qualname}:budget measures the complete message', n, 'self.description holds the given description when the budget is measured',
+                          f'`{src(n)}` replaces the description before the budget is measured: the size is computed without the JSON-escaped description, so a '
+                          'description with newlines / quotes / control characters (which grow when escaped) yields datagrams above 508 bytes', init)
